@@ -184,6 +184,26 @@ func aimedAMs(caps amCaps) []*amSchema {
 			)},
 		))
 	}
+	// 10. constrained struct reached through chains of named aliases
+	out = append(out, mk(
+		&amObject{"Inner", st(fld("name", true, strLen(1, 6)), fld("level", false, bounded(tyw("int", intW), 1, 50)))},
+		&amObject{"AliasOne", rf("Inner")},
+		&amObject{"AliasTwo", rf("AliasOne")},
+		// (no *required* member of alias type: Go then calls a NewAliasTwo() it does not generate — known C02 finding —
+		// and the schema would be lost to every executing check)
+		&amObject{"Chained", st(
+			fld("opt", false, rf("AliasTwo")),
+			fld("one", false, rf("AliasOne")),
+			fld("list", true, arr(rf("AliasTwo"))),
+			fld("byKey", false, mp(rf("AliasOne"))),
+		)},
+	))
+	out = append(out, mk(
+		&amObject{"Inner", st(fld("name", true, strLen(1, 6)))},
+		&amObject{"AliasOne", rf("Inner")},
+		&amObject{"AliasTwo", rf("AliasOne")},
+		&amObject{"ChainedRequired", st(fld("direct", true, rf("AliasTwo")))},
+	))
 	// 9. every scalar kind and width, nullable, required and optional
 	if caps.Nullable {
 		var flds []*amField
